@@ -9,7 +9,8 @@ META = {
                  'in child processes (assert build and NDEBUG build)',
     'text': 'C15_foreach_once: for every n, pool size (zero-thread pools included), maxThreads and wait mode every element of [0,n) is visited by '
             'exactly one chunk and nothing else is (offsets form a contiguous partition, reusing foreach_bounds_contiguous); C15_thread_count: the '
-            'chunk count given to staticChunkSize is in [1, max(1,maxThreads)]; C15_nothing_deferred: every application is made by a scheduled closure '
+            'chunk count given to staticChunkSize is in [1, max(1,maxThreads)]; C15_functor_captured_at_schedule_time: every chunk applies the functor value captured when it was scheduled '
+            '(never a later state of the caller\'s object); C15_nothing_deferred: every application is made by a scheduled closure '
             'or by the caller before tasks.wait().  The model describes the code after the repair of foreach-zero-threads-nowait-div0 (numThreads '
             'clamped to >= 1); the former witness is a regression Example and is replayed first on every run (assert build and NDEBUG build).',
     'note': 'Trusted: Coq kernel; tools/translate.py + clang AST (staticChunkSize); the thread-count lines and the offset formulas of for_each.h are '
